@@ -17,6 +17,14 @@ a line containing `x` does not match, group 1 is the text after the first `:` (a
 This reaches what the in-process correspondence does not: flag parsing (`-i` / `-e` / `-m`), the
 real fastregex matcher, BuildExtractorFromArguments, real files opened by name (so `{src}` is the
 name given on the command line), stdout/stderr.
+
+Round 4 (`run_flags`): the summary line byte for byte WITH thousands separators (inputs of 1000+ lines,
+formatting on) against the model's `summary` op (`Model/C01Summary.extractorSummary`); the stdin path
+(`rare filter` reading a pipe, with `-` and with no argument, time-flushing batcher); the usage guards
+(`--batch 0`, `--batch-buffer -1`, `--readers 0`: exit code 2 and the message of the model's `flags` op,
+`Model/C01Flags.configure`; `--batch-buffer 0`, `--workers 0/-3` accepted and correct); `filter -n NUM`
+with several workers/readers/files (early consumer exit): NUM' = min(NUM, M) lines printed, each one of the
+sequential keys and no key more often than it occurs, stderr `Matched: NUM' / NUM`, no hang.
 """
 import os, sys, re, csv, shutil, subprocess, collections
 sys.path.insert(0, os.path.dirname(__file__))
@@ -90,6 +98,143 @@ def gen_file(rnd, nlines):
     if lines and rnd.intn(5) == 0:
         body = body[:-1]  # no final newline
     return body
+
+
+def run_flags(ctx, exe, driver, rnd, viol):
+    """summary with separators, stdin, usage guards, filter -n; returns the number of real runs"""
+    quick = ctx["tier"] == "quick"
+    root = os.path.join(ctx["work"], "cli-flags")
+    shutil.rmtree(root, ignore_errors=True)
+    os.makedirs(root)
+    runs = 0
+    nocol = [exe, "--nocolor"]
+
+    # ---- data sets: (files, contents); big ones for the thousands separators
+    sets = []
+    sizes = [0, 1, 999, 1000, 1001, 2500] if quick else [0, 1, 99, 100, 999, 1000, 1001, 2500, 12345, 100000]
+    for si, n in enumerate(sizes):
+        d = os.path.join(root, "b%02d" % si)
+        os.makedirs(d)
+        lines = []
+        for k in range(n):
+            r = rnd.intn(10)
+            lines.append(b"x%d" % k if r == 0 else (b"k%d:v" % (k % 7) if r < 4 else (b"" if r == 4 else b"w%d" % (k % 13))))
+        body = b"".join(l + b"\n" for l in lines)
+        nf = 1 if si % 2 == 0 else 3
+        contents = []
+        per = (len(lines) + nf - 1) // nf if nf else 0
+        for fi in range(nf):
+            part = lines[fi * per:(fi + 1) * per] if per else []
+            c = b"".join(l + b"\n" for l in part)
+            contents.append(c)
+            with open(os.path.join(d, "f%04d" % fi), "wb") as f:
+                f.write(c)
+        sets.append((d, contents, body))
+
+    igs = [[], ["{1}"], ["{eq {line} 1}"], ["{gt {line} 1200}"]]
+    cases, meta = [], []
+    for si, (d, contents, body) in enumerate(sets):
+        for ig in igs[: (2 if quick else 4)] if si else igs[:1]:
+            ins = ";".join(hx(c) for c in contents)
+            igs_s = "N" if not ig else "+".join(hx(t.encode()) for t in ig)
+            cases.append("C01 pipe %s files 1 1 1 1 0 . 0 0 h %s %s" % (ins, igs_s, hx(b"{0}")))
+            meta.append(("files", si, ig))
+        # stdin: one stream (the concatenation), source name is not used by these expressions
+        cases.append("C01 pipe %s reader 1 1 1 1 0 . 0 0 h %s %s" % (hx(body) if body else "-", "N", hx(b"{0}")))
+        meta.append(("stdin", si, []))
+    answers = model_answers(driver, cases)
+
+    sum_cases, sum_meta = [], []
+    for (kind, si, ig), case, ans in zip(meta, cases, answers):
+        if not ans.startswith("ok "):
+            viol("cli-model-answer", case=case, model=ans)
+            continue
+        R, M, I, keys = parse_model(ans)
+        d, contents, body = sets[si]
+        args = ["-m", REGEX, "-e", "{0}"]
+        for t in ig:
+            args += ["-i", t]
+        w, b, r, bb = rnd.pick([1, 2, 4]), rnd.pick([1, 7, 1000]), rnd.pick([1, 2, 3]), rnd.pick([0, 1, 6])
+        par = ["--workers", str(w), "--batch", str(b), "--readers", str(r), "--batch-buffer", str(bb)]
+        if kind == "files":
+            cmd = nocol + ["filter"] + args + par + ["f%04d" % i for i in range(len(contents))]
+            stdin = None
+        else:
+            cmd = nocol + ["filter"] + args + par + rnd.pick([[], ["-"]])
+            stdin = body
+        try:
+            p = subprocess.run(cmd, cwd=d, input=stdin, stdout=subprocess.PIPE, stderr=subprocess.PIPE, timeout=120)
+        except subprocess.TimeoutExpired:
+            viol("cli-flags-hang", case=case, cmd=" ".join(cmd[1:]))
+            continue
+        runs += 1
+        got = p.stdout.split(b"\n")
+        got = got[:-1] if got and got[-1] == b"" else got
+        if sorted(got) != sorted(keys):
+            viol("cli-flags-keys", case=case, cmd=" ".join(cmd[1:]), cwd=d, got=len(got), want=len(keys))
+        sum_cases.append("C01 summary 1 0 %d %d %d 0 ." % (M, R, I))
+        sum_meta.append((case, cmd, d, p.stderr))
+        # ---- filter -n with several workers: early consumer exit
+        for lim in ([1, 3, 1000] if quick else [1, 2, 3, 10, 1000, 5000]):
+            cmdn = cmd[:3] + ["-n", str(lim)] + cmd[3:]
+            try:
+                pn = subprocess.run(cmdn, cwd=d, input=stdin, stdout=subprocess.PIPE, stderr=subprocess.PIPE, timeout=120)
+            except subprocess.TimeoutExpired:
+                viol("cli-limit-hang", case=case, cmd=" ".join(cmdn[1:]))
+                continue
+            runs += 1
+            gotn = pn.stdout.split(b"\n")
+            gotn = gotn[:-1] if gotn and gotn[-1] == b"" else gotn
+            want_n = min(lim, M)
+            over = collections.Counter(gotn) - collections.Counter(keys)
+            if len(gotn) != want_n or over:
+                viol("cli-limit-keys", case=case, cmd=" ".join(cmdn[1:]), cwd=d, printed=len(gotn), want=want_n,
+                     unexpected=[k.hex() for k in list(over)[:3]])
+            sum_cases.append("C01 summary 1 0 %d %d 0 0 ." % (len(gotn), lim))
+            sum_meta.append((case, cmdn, d, pn.stderr))
+
+    # the summary lines, byte for byte (thousands separators on)
+    for (case, cmd, d, stderr), sc, ans in zip(sum_meta, sum_cases, model_answers(driver, sum_cases)):
+        want = unhx(ans.split()[1]) + b"\n" if ans.startswith("ok ") else None
+        lines = [l for l in stderr.split(b"\n") if l.startswith(b"Matched: ")]
+        if want is None or not lines or lines[-1] + b"\n" != want:
+            viol("cli-summary-bytes", case=case, cmd=" ".join(cmd[1:]), cwd=d, model_case=sc,
+                 got=(lines[-1] if lines else stderr[-120:]).decode(errors="replace"),
+                 want=(want or b"?").decode(errors="replace").strip())
+
+    # ---- usage guards and accepted boundary values
+    d = sets[1][0]
+    fcases, fmeta = [], []
+    combos = [(0, 2, 1, 1), (-1, 2, 1, 1), (1, -1, 1, 1), (1000, -5, 2, 3), (1, 2, 1, 0), (1, 2, 1, -2), (0, -1, 0, 0),
+              (1, 0, 0, 1), (1, 0, -3, 1), (2, 0, 1, 2), (1000, 6, 3, 3)]
+    for (b, bb, w, r) in combos:
+        for kind in ("files", "stdin"):
+            fcases.append("C01 flags %s %d %d %d %d" % (kind, b, bb, w, r))
+            fmeta.append((kind, b, bb, w, r))
+    for (kind, b, bb, w, r), fc, ans in zip(fmeta, fcases, model_answers(driver, fcases)):
+        cmd = nocol + ["filter", "--batch", str(b), "--batch-buffer", str(bb), "--workers", str(w), "--readers", str(r)]
+        cmd += ["f0000"] if kind == "files" else []
+        try:
+            p = subprocess.run(cmd, cwd=d, input=(sets[1][2] if kind == "stdin" else None), stdout=subprocess.PIPE,
+                               stderr=subprocess.PIPE, timeout=60)
+        except subprocess.TimeoutExpired:
+            viol("cli-usage-hang", case=fc, cmd=" ".join(cmd[1:]))
+            continue
+        runs += 1
+        f = ans.split()
+        if f[0] == "usage":
+            msg = unhx(f[2])
+            if p.returncode != int(f[1]) or (b"[Log] " + msg) not in p.stderr or b"panic" in p.stderr:
+                viol("cli-usage", case=fc, cmd=" ".join(cmd[1:]), rc=p.returncode, want_rc=int(f[1]),
+                     stderr=p.stderr[-200:].decode(errors="replace"), want=msg.decode())
+        elif f[0] == "ok":
+            m = SUMMARY.search(p.stderr)
+            if p.returncode not in (0, 1) or not m or int(m.group(2)) != 1 or b"panic" in p.stderr:
+                viol("cli-usage-accepted", case=fc, cmd=" ".join(cmd[1:]), rc=p.returncode,
+                     stderr=p.stderr[-200:].decode(errors="replace"))
+        else:
+            viol("cli-model-answer", case=fc, model=ans)
+    return runs
 
 
 def run_extra(ctx):
@@ -219,8 +364,10 @@ def run_extra(ctx):
                     viol("cli-histo-counts", case=case, cmd=" ".join(cmd[1:]), cwd=d,
                          got=sorted((k.hex(), v) for k, v in counted.items())[:6],
                          want=sorted((k.hex(), v) for k, v in want.items())[:6])
+    runs += run_flags(ctx, exe, driver, rnd, viol)
     if not violations:
         shutil.rmtree(root, ignore_errors=True)
+        shutil.rmtree(os.path.join(ctx["work"], "cli-flags"), ignore_errors=True)
     return {"runs": runs, "violations": violations, "model_declined": skipped,
             "assumptions": ["CLI step: the harness matcher of the model is handed to rare as the regular expression "
                             + REGEX + " (the regex engine is a trusted library); keys are compared as multisets "
